@@ -250,6 +250,12 @@ func genArmor(ctx *Ctx, emit func(Case)) {
 									if L <= 512 && !strings.HasPrefix(o, "ok payload="+keys.Hex(pl)+" ") {
 										return fmt.Sprintf("a frame of %d characters (within the specification's 512) is not dearmored to the payload: side=%d (0 header, 1 footer) padding-position=%d brand=%q answer=%s text=%q", L, side, where, brand, trunc(o, 120), trunc(text, 700))
 									}
+									// "text whose header or footer is … over-long … is rejected": with frame validation, and the
+									// padding INSIDE the frame (runs at the ends are trimmed before the frame is measured)
+									if L > 512 && where == 2 && expect != "none" && strings.HasPrefix(o, "ok ") {
+										side := []string{"header", "footer"}[side]
+										return fmt.Sprintf("a %s of %d characters (over the specification's 512-character limit) is accepted by the validating dearmorer: brand=%q text=%q", side, L, brand, trunc(text, 700))
+									}
 									return ""
 								}})
 						}
